@@ -313,6 +313,9 @@ func init() {
 			c.Fail("harness.setup", "%v", v.Err)
 			return
 		}
+		if spun(c, "C09", v) {
+			return
+		}
 		if inside {
 			c.Nontrivial(p.Name + "|" + desc)
 		}
@@ -445,6 +448,9 @@ func init() {
 		}})
 		if v.Err != nil {
 			c.Fail("harness.setup", "%v", v.Err)
+			return
+		}
+		if spun(c, "C09", v) {
 			return
 		}
 		c.Nontrivial(p.Name + "|" + desc)
